@@ -109,3 +109,10 @@ check("C12",
   "For every argument expression of the bound (all operator trees of depth <= 2 over columns and number literals with unary signs and the 11 binary operators, a slice of depth 3 incl. arithmetic over comparison results) and 21 call forms (positional/keyword/nested calls to recording functions, string/True/False/None literals, whitespace variants): the column produced by the real pipeline equals, as z3 terms (comparisons fork per row), Python's eval of the same text; recording functions receive the arguments Python would pass; the term name is the normalised source text; whitespace variants are one term; {e} is I(e); texts with different trees have different names; two different calls in one formula stay two terms. Four known findings (sign over power, power chains, parentheses dropped from names, resulting name collisions) are matched by structural markers of the input plus the observed reading.",
   "Trusted: z3; Python's eval as oracle; stubs in evidence; powers with non-integer / symbolic exponents are uninterpreted functions (same symbol on both sides). Chained comparisons, constant-only expressions and strings containing quote characters are outside.",
   "DESIGN.md section 4 C12")
+
+check("C07",
+  "exhaustive exploration of operation histories (decision variables) through the real API on z3-real cells; every result compared by z3 with the same operation on freshly imported modules, earlier results re-read after every step",
+  "model_checking",
+  "Every history of K operations (build a design, common/group evaluate_new_data on an existing design on one of three frames with disjoint z3 symbols and an unseen level, and for K = 4 configuration changes; initial mode and first build are case parameters) is executed on one live import of formulae. After each step the result must equal, as z3 terms and including slices, labels, term-wise sub-matrices and raised exception type, the same operation performed on freshly imported formulae modules; every earlier design is re-snapshotted and must be unchanged; the caller's frames (cells by identity, dtypes, index, columns) and namespace must be untouched.",
+  "Trusted: z3; stubs in evidence; fresh process-state is realised by re-importing the formulae package (new registries, config, classes) rather than by a new OS process. K = 3 (quick) / 4 (thorough) over a pool of 3 / 5 formulas.",
+  "DESIGN.md section 4 C07")
